@@ -97,8 +97,11 @@ def r4(ctx):
         for k in ('region1', 'region2'):
             v = r.fields.get(k) if isinstance(r, Obj) else None
             ok = ok and isinstance(v, App) and v.name == f'method:{fn}' and f'self.{k}' in show(v.args[0])
-        if ok:
-            ctx.ok(f'{c0n}.{fn}', 'component-wise, operator kept')
+        if ok and not (c06._fresh_from(r.fields.get('meta'), 'meta') and c06._fresh_from(r.fields.get('visual'), 'visual')):
+            ctx.bad(f'{c0n}.{fn}', 'metadata', 'the converted compound does not carry copies of the compound\'s own '
+                    f'meta/visual (include flag lost): meta={show(r.fields.get("meta"), 80)}', f.loc())
+        elif ok:
+            ctx.ok(f'{c0n}.{fn}', 'component-wise, operator and metadata kept')
         else:
             ctx.bad(f'{c0n}.{fn}', 'component-wise', f'conversion gives {show(r, 300)}', f.loc())
     # rotation
